@@ -39,6 +39,8 @@ SERIAL_ATTRS: Dict[str, int] = {
 SERIAL_ATTRS_IN_CLASS: Dict[Tuple[str, str], int] = {("jitterbuffer.JitterBuffer", "_origin"): 16}
 SERIAL_CONTAINERS: Dict[str, int] = {"_sack_misordered": 32, "_sack_duplicates": 32, "missing": 16, "lost": 16, "duplicates": 32}
 SERIAL_DICT_VALUES: Dict[str, int] = {"_outbound_stream_seq": 16}
+# containers of tuples: position -> width (ForwardTsnChunk.streams holds (stream id, stream sequence number) pairs)
+SERIAL_TUPLE_CONTAINERS: Dict[str, Dict[int, int]] = {"streams": {1: 16}}
 # accumulators of multiples of 2^k: serial(k) +/- unwrap(k) is an ordinary (extended) integer
 UNWRAP_ATTRS: Dict[Tuple[str, str], int] = {("rtcrtpreceiver.StreamStatistics", "cycles"): 16, ("rtcrtpreceiver.TimestampMapper", "_origin"): 32}
 NOT_SERIAL_IN_CLASS = {("rtcrtpreceiver.TimestampMapper", "_origin"), ("rate.RateCounter", "_origin_ms"),
@@ -214,6 +216,10 @@ class Serial:
                         ck = self.cont_k(n.iter, fi)
                         if ck:
                             bind(n.target, ck, None)
+                        if isinstance(n.iter, ast.Attribute) and n.iter.attr in SERIAL_TUPLE_CONTAINERS and isinstance(n.target, ast.Tuple):
+                            for pos_, k_ in SERIAL_TUPLE_CONTAINERS[n.iter.attr].items():
+                                if pos_ < len(n.target.elts):
+                                    bind(n.target.elts[pos_], k_, None)
                     elif isinstance(n, ast.Return) and n.value is not None:
                         ck = self.cont_k(n.value, fi)
                         if ck and self.ret_cont.get(fi.qualname) != ck:
